@@ -32,3 +32,15 @@ Definition helpers_text (rs : list hreq) (text : str) : res (res value) :=
       | Ok hs => Ok (match apply_hops hs c with Ok v => Ok (canon v) | Err e => Err e end)
       end
   end.
+
+(* SETWITH: statement A supplies a WITH clause, statement B (a SELECT) receives it through set_with_clauses *)
+Definition setwith_text (d : sqltype) (a b : str) : res (res value) :=
+  match parse_text false "statements" d a, parse_text false "statements" d b with
+  | Ok (VList [sa]), Ok (VList [sb]) =>
+      if (String.eqb (cls_of sb) "ASTSingleSelectStatement" || String.eqb (cls_of sb) "ASTUnionSelectStatement")%bool
+      then Ok (match apply_hop (HSetWithClause (get "with_clause" sa)) sb with Ok v => Ok (canon v) | Err e => Err e end)
+      else Err ParseErr
+  | Err e, _ => Err e
+  | _, Err e => Err e
+  | _, _ => Err ParseErr
+  end.
